@@ -34,7 +34,7 @@ PROP = dict(
             job("contractcourt", "^TestVerifC13Crash$", ["TestVerifC13Crash"], 50, shards=6,
                 flaky_is_violation=False, timeout=400),
             job("contractcourt", "^TestVerifC13Repro", ["TestVerifC13ReproRestartInContractClosed",
-                "TestVerifC13ReproResolvedCheckpoint"], 1, shards=1, v=True),
+                "TestVerifC13ReproResolvedCheckpoint", "TestVerifC13ReproContestOwnSweepPanic"], 1, shards=1, v=True),
         ],
         thorough=[
             job("contractcourt", "^TestVerifC13LogModel$", ["TestVerifC13LogModel"], 3000, shards=8,
@@ -42,7 +42,7 @@ PROP = dict(
             job("contractcourt", "^TestVerifC13Crash$", ["TestVerifC13Crash"], 250, shards=8,
                 env=dict(VERIF_C13_PAIRS=12), timeout=900, flaky_is_violation=False),
             job("contractcourt", "^TestVerifC13Repro", ["TestVerifC13ReproRestartInContractClosed",
-                "TestVerifC13ReproResolvedCheckpoint"], 1, shards=1, v=True),
+                "TestVerifC13ReproResolvedCheckpoint", "TestVerifC13ReproContestOwnSweepPanic"], 1, shards=1, v=True),
         ],
     ),
     also=["C12"],
